@@ -1176,6 +1176,24 @@ func (f *frame) evalLoopInv(iv loopInv, cur, old *State) string {
 				if t, ok := f.vals[p]; ok {
 					env.vars[p.Comment] = t
 				}
+				// `rangeslice`: the slice a range loop iterates over, also when it is an unnamed value (the result
+				// of a call in the range clause) - found as the operand indexed by the loop's implicit index
+				if p.Comment == "rangeindex" && p.Referrers() != nil {
+					for _, u := range *p.Referrers() {
+						// go/ssa: t3 = rangeindex + 1 ; ... ; &s[t3]
+						inc, ok := u.(*ssa.BinOp)
+						if !ok || inc.Referrers() == nil {
+							continue
+						}
+						for _, u2 := range *inc.Referrers() {
+							if ia, ok := u2.(*ssa.IndexAddr); ok && ia.Index == inc {
+								if t, ok := f.vals[ia.X]; ok {
+									env.vars["rangeslice"] = t
+								}
+							}
+						}
+					}
+				}
 			}
 		}
 	}
